@@ -160,6 +160,23 @@ func (lc *lockClient) maskTime(b []byte, off int) {
 	binary.BigEndian.PutUint64(b[off:], maskRecent(v, lc.sessionStart))
 }
 
+// maskTimes canonicalises (mtime, ctime, atime) at b[off:off+24]: mtime as maskTime; ctime is
+// always "recent" for objects the harness just created (rendered 0); atime is either the value the
+// harness set (mtime + atimeShift) or "recent" when an access updated it (both rendered 0).
+// Anything else is left as is, so swapped or wrong fields stay visible.
+func (lc *lockClient) maskTimes(b []byte, off int) {
+	mt := binary.BigEndian.Uint64(b[off:])
+	ct := binary.BigEndian.Uint64(b[off+8:])
+	at := binary.BigEndian.Uint64(b[off+16:])
+	if maskRecent(ct, lc.sessionStart) == recentMarker {
+		binary.BigEndian.PutUint64(b[off+8:], 0)
+	}
+	if at == mt+atimeShift || maskRecent(at, lc.sessionStart) == recentMarker {
+		binary.BigEndian.PutUint64(b[off+16:], 0)
+	}
+	binary.BigEndian.PutUint64(b[off:], maskRecent(mt, lc.sessionStart))
+}
+
 // do sends one request and reads its response according to the protocol's framing.
 func (lc *lockClient) do(q creq, isDirTarget bool) obs {
 	wch := make(chan error, 1)
@@ -188,10 +205,7 @@ func (lc *lockClient) do(q creq, isDirTarget bool) obs {
 		}
 	case opStatFile:
 		if fixed(33) && int64(binary.BigEndian.Uint64(o.data[0:])) != -1 {
-			lc.maskTime(o.data, 8)
-			for i := 16; i < 32; i++ {
-				o.data[i] = 0 // ctime, atime are not compared
-			}
+			lc.maskTimes(o.data, 8)
 		}
 	case opReadFile:
 		if fixed(4) {
@@ -213,10 +227,7 @@ func (lc *lockClient) do(q creq, isDirTarget bool) obs {
 	case opReadDirEntryV2:
 		if fixed(35) {
 			if int64(binary.BigEndian.Uint64(o.data[0:])) != -1 {
-				lc.maskTime(o.data, 8)
-				for i := 16; i < 32; i++ {
-					o.data[i] = 0
-				}
+				lc.maskTimes(o.data, 8)
 			}
 			fixed(int(binary.BigEndian.Uint16(o.data[32:])))
 		}
